@@ -23,8 +23,9 @@ def hb(h):
     return b"" if h in ("", "-") else bytes.fromhex(h)
 
 
-def wire_framings(wire):
-    """independent reader of the server->client byte stream: the framing of each response head"""
+def wire_framings(wire, bodyless=()):
+    """independent reader of the server->client byte stream: the framing of each response head; `bodyless[i]` says
+    that the i-th response has no body whatever its Content-Length says (204 / 304 / answer to HEAD)"""
     out, i = [], 0
     while i < len(wire):
         j = wire.find(b"\r\n\r\n", i)
@@ -32,6 +33,7 @@ def wire_framings(wire):
             out.append("?")
             break
         head = wire[i:j].lower()
+        nobody = len(out) < len(bodyless) and bodyless[len(out)]
         m = re.search(rb"\r\ncontent-length:\s*(\d+)", head)
         if b"\r\ntransfer-encoding: chunked" in head:
             out.append("C")
@@ -47,7 +49,7 @@ def wire_framings(wire):
             i = k
         elif m:
             out.append("L%d" % int(m.group(1)))
-            i = j + 4 + int(m.group(1))
+            i = j + 4 + (0 if nobody else int(m.group(1)))
         else:
             out.append("U")
             break
@@ -61,9 +63,12 @@ class CHECK(core.Check):
     N_QUICK = 300
     N_THOROUGH = 6000
     N_SEARCH = 800
-    RULE = ("N = 1..6 requests queued on one Patron, each answered by a scripted WSGI application: fixed length "
+    RULE = ("N = 1..6 requests (GET or HEAD) queued on one Patron, each answered by a scripted WSGI application: fixed length "
             "(Content-Length = total, or fewer than the bytes yielded), streamed without a length (1-4 pieces), empty "
-            "(no yield; with and without Content-Length: 0), with empty yields in between; schedule = random string "
+            "(no yield; with and without Content-Length: 0), 204 / 304 (with and without a length), answers to HEAD "
+            "(Content-Length announced or not, no body), with empty yields in between; in 40% of the cases the wire "
+            "lets only 0..200 bytes through per service pass (requests and responses arrive split at arbitrary byte "
+            "positions; every cut position 1..40/90 exhaustively); schedule = random string "
             "of client/server serviceAll calls (runs of one side, strict alternation, server-first) followed by enough "
             "alternation to finish; non-trivial = N >= 2 and all N responses delivered; distinct by content")
     TRUSTED = ["correspondence: real Patron + real Valet of $IOFLO_REPO (all real HTTP classes; tcp Client/Server/Incomer "
@@ -72,13 +77,17 @@ class CHECK(core.Check):
                "the delivered responses and of the framing of every head on the wire (read by an independent byte reader)",
                "the model describes the code as repaired by fixes/D17 (Responder.reset recomputes chunkable) and fixes/D31b (delivered body "
                "is a copy)"]
-    PARTIAL = ["message-level model: response heads and chunk framing are abstract items (their byte-level round trip is C30); "
+    PARTIAL = ["arrival in fragments is exercised against the real code with a throttled wire but compared with the model "
+               "and judged by the oracle only on the outcome (the per-pass trace is compared for unthrottled cases): the "
+               "model is message-level, independence of the split points is C29's theorem",
+               "message-level model: response heads and chunk framing are abstract items (their byte-level round trip is C30); "
                "one connection, HTTP/1.1 requests without 'Connection: close', applications that call start_response once "
                "and yield at least Content-Length bytes; timeouts, TLS, server sent events, errors raised by the "
                "application and connection loss are not modelled"]
     TECHNIQUE = ("Lean 4 theorems over a two-party state machine with FIFO wires (invariant over all schedules, progress "
                  "under alternation) + differential correspondence against the real client and server under random schedules")
-    LEVEL_TEXT = ("Proved on the model for every application (that yields at least the Content-Length it announces), every "
+    LEVEL_TEXT = ("Proved on the model for every application (that yields at least the Content-Length it announces, and no "
+                  "body at all for 204 / 304 responses and answers to HEAD requests, which may be mixed in freely), every "
                   "list of requests and EVERY schedule of client/server serviceAll calls: each response head written is "
                   "delimited by Content-Length or chunking, never 'until close' (C31_every_response_framed); the items "
                   "queued for one request parse back, however they are grouped on arrival, to exactly one response with "
@@ -97,20 +106,29 @@ class CHECK(core.Check):
 
     # ------------------------------------------------------------------ generation
     def _app(self, rng):
-        kind = rng.choice(["fixed", "fixed", "streamed", "streamed", "empty", "over"])
+        kind = rng.choice(["fixed", "fixed", "streamed", "streamed", "empty", "over", "nocontent", "notmodified", "head"])
         pieces = [bytes(rng.randrange(256) for _ in range(rng.choice([1, 2, 7, 40]))) for _ in range(rng.choice([1, 1, 2, 3, 4]))]
         if rng.random() < 0.25:
             pieces.insert(rng.randrange(len(pieces) + 1), b"")
         total = sum(len(p) for p in pieces)
+        status, head = 200, False
         if kind == "fixed":
             cl = total
         elif kind == "over":
             cl = rng.randrange(total + 1)
         elif kind == "empty":
             pieces, cl = ([b""] if rng.random() < 0.3 else []), rng.choice([None, None, 0])
+        elif kind in ("nocontent", "notmodified"):
+            # a status that never has a body: the application yields nothing (or empty strings); with or without a length
+            status = 204 if kind == "nocontent" else 304
+            pieces, cl = ([b""] if rng.random() < 0.3 else []), rng.choice([None, None, 0, 5 if kind == "notmodified" else 0])
+        elif kind == "head":
+            # answer to a HEAD request: headers as for GET (a Content-Length may be announced), no body
+            head = True
+            pieces, cl = ([b""] if rng.random() < 0.3 else []), rng.choice([None, 0, 7, 1234])
         else:
             cl = None
-        return {"cl": cl, "pieces": [p.hex() for p in pieces]}
+        return {"cl": cl, "pieces": [p.hex() for p in pieces], "status": status, "head": head}
 
     def _schedule(self, rng, apps):
         work = sum(len(a["pieces"]) + 3 for a in apps) + 4
@@ -128,7 +146,22 @@ class CHECK(core.Check):
     def _one(self, rng):
         n = rng.choice([1, 2, 2, 3, 3, 4, 6])
         apps = [self._app(rng) for _ in range(n)]
-        return {"n": n, "apps": apps, "schedule": self._schedule(rng, apps)}
+        sched = self._schedule(rng, apps)
+        case = {"n": n, "apps": apps, "schedule": sched}
+        if rng.random() < 0.4:
+            # the wire lets only some bytes through per service pass: requests and responses arrive split anywhere
+            tail = 2 * (sum(len(a["pieces"]) + 3 for a in apps) + 4)
+            style = rng.choice(["tiny", "small", "mixed"])
+            q = []
+            for i in range(len(sched) - tail):
+                q.append(rng.choice([1, 2, 3, 5]) if style == "tiny" else
+                         rng.randrange(1, 60) if style == "small" else rng.choice([-1, 0, 1, 7, 30, 200]))
+            if not q:       # pure alternation: fragment a stretch of it and append the finishing tail again
+                extra = rng.randrange(10, 120)
+                case["schedule"] = "cs" * (extra // 2) + sched
+                q = [rng.choice([1, 2, 3, 5, 17, 40]) for _ in range(2 * (extra // 2))]
+            case["quota"] = q + [-1] * (len(case["schedule"]) - len(q))
+        return case
 
     def generate(self, rng, n, tier):
         for _ in range(n):
@@ -137,12 +170,18 @@ class CHECK(core.Check):
     def exhaustive(self, tier):
         """every pair (and, thorough, triple) of response kinds in sequence, strict alternation"""
         kinds = [{"cl": 3, "pieces": ["616263"]}, {"cl": None, "pieces": ["6162", "63"]}, {"cl": None, "pieces": []},
-                 {"cl": 0, "pieces": []}, {"cl": 2, "pieces": ["616263"]}]
+                 {"cl": 0, "pieces": []}, {"cl": 2, "pieces": ["616263"]},
+                 {"cl": None, "pieces": [], "status": 204}, {"cl": None, "pieces": [], "status": 304},
+                 {"cl": None, "pieces": [], "head": True}, {"cl": 7, "pieces": [], "head": True}]
         import itertools
         for r in ((2, 3) if tier == "thorough" else (2,)):
             for combo in itertools.product(kinds, repeat=r):
                 apps = [json.loads(json.dumps(k)) for k in combo]
                 yield {"n": r, "apps": apps, "schedule": "cs" * (6 * r + 4)}
+        # every byte position at which the second request / the first response can be cut by the wire
+        for cut in range(1, 90 if tier == "thorough" else 40):
+            sched = "cs" * 40
+            yield {"n": 2, "apps": [kinds[1], kinds[0]], "schedule": sched, "quota": [cut, cut, cut, cut] * 10 + [-1] * 40}
         if tier == "thorough":       # every schedule prefix of length <= 7 for a fixed + streamed pair
             for k in range(8):
                 for bits in itertools.product("cs", repeat=k):
@@ -162,7 +201,7 @@ class CHECK(core.Check):
             hdrs = [("X-Req", str(i))]
             if a["cl"] is not None:
                 hdrs.append(("Content-Length", str(a["cl"])))
-            start_response("200 OK", hdrs)
+            start_response({200: "200 OK", 204: "204 No Content", 304: "304 Not Modified"}[a.get("status", 200)], hdrs)
             for p in a["pieces"]:
                 yield hb(p)
 
@@ -184,7 +223,8 @@ class CHECK(core.Check):
                 p.close()
                 valet.close()
         net = D.Net({"a.test": "10.0.0.1"})
-        net.tap = lambda peer, data: wire.append(data)
+        net.relayed = True
+        net.wiretap = lambda data: wire.append(data)
         with D.patched(net):
             S = D.server_class(net)
             valet = hs.Valet(app=app, servant=S(ha=("10.0.0.1", 8080)))
@@ -192,23 +232,28 @@ class CHECK(core.Check):
             p = hc.Patron(hostname="a.test", port=8080)
             p.open()
             try:
-                return self._drive(case, p, valet, served, steps, wire)
+                return self._drive(case, p, valet, served, steps, wire, net=net)
             finally:
                 try:
                     valet.servant.closeAllIx()
                 except Exception:
                     pass
 
-    def _drive(self, case, p, valet, served, steps, wire, sleep=False):
+    def _drive(self, case, p, valet, served, steps, wire, sleep=False, net=None):
         import time
         for i in range(case["n"]):
-            p.request(method="GET", path="/r%d" % i)
+            p.request(method="HEAD" if case["apps"][i].get("head") else "GET", path="/r%d" % i)
         err = None
-        for ch in case["schedule"]:
+        quota = case.get("quota") or [-1] * len(case["schedule"])
+        for ch, qt in zip(case["schedule"], quota):
             try:
                 if ch == "c":
+                    if net is not None:
+                        net.move("s2c", qt)
                     p.serviceAll()
                 else:
+                    if net is not None:
+                        net.move("c2s", qt)
                     valet.serviceAll()
             except Exception as ex:
                 err = "err " + type(ex).__name__
@@ -233,7 +278,11 @@ class CHECK(core.Check):
             errored |= 1 if r["errored"] else 0
             delivered.append("%d %s %s" % (int(m.group(1)) if m else -1, r["headers"].get("x-req", "-1"),
                                            bytes(r["body"]).hex() or "-"))
-        fr = wire_framings(b"".join(wire))
+        if net is not None:
+            net.move("s2c", -1)            # so that the wire reader sees everything the server wrote
+        fr = wire_framings(b"".join(wire), [bool(a.get("head")) or a.get("status", 200) in (204, 304) for a in case["apps"]])
+        if case.get("quota"):
+            steps = []                     # with a throttled wire only the outcome is compared with the (message-level) model
         line = "%s | final %d %d %d%s F%s" % (";".join(steps) if steps else "-", 1 if p.waited else 0, errored,
                                               len(delivered), "".join(" " + d for d in delivered),
                                               "".join(" " + f for f in fr))
@@ -245,15 +294,26 @@ class CHECK(core.Check):
         return self._run(case)
 
     def requests(self, case):
-        a = " ".join("A %s %d %s" % ("~" if x["cl"] is None else x["cl"], len(x["pieces"]),
-                                     " ".join(p or "-" for p in x["pieces"])) for x in case["apps"])
+        a = " ".join("A %s %d %d %d %s" % ("~" if x["cl"] is None else x["cl"], 1 if x.get("status", 200) in (204, 304) else 0,
+                                           1 if x.get("head") else 0, len(x["pieces"]),
+                                           " ".join(p or "-" for p in x["pieces"])) for x in case["apps"])
         return [("ka %d %s S %s" % (case["n"], a, case["schedule"])).replace("  ", " ")]
+
+    def model_post(self, case, replies):
+        if case.get("quota") and replies:
+            return ["- |" + replies[0].split("|", 1)[1]]
+        return replies
 
     # ------------------------------------------------------------------ oracle
     def _expected(self, case):
         out = []
         for i, a in enumerate(case["apps"]):
             body = b"".join(hb(p) for p in a["pieces"])
+            if a.get("head") or a.get("status", 200) in (204, 304):
+                if body:
+                    return None          # an application that sends a body where none is allowed
+                out.append("%d %d -" % (i, i))
+                continue
             if a["cl"] is not None:
                 if len(body) < a["cl"]:
                     return None          # the application promised more than it yields: not a complete response
@@ -296,8 +356,9 @@ class CHECK(core.Check):
         return case["n"] >= 2 and self._expected(case) is not None and re.search(r"final 0 0 %d " % case["n"], out[0]) is not None
 
     def bucket(self, case, out):
-        kinds = "".join("E" if not any(a["pieces"]) else ("L" if a["cl"] is not None else "S") for a in case["apps"])
-        return "n%d:%s" % (case["n"], kinds if len(kinds) <= 3 else kinds[:3] + "+")
+        kinds = "".join("H" if a.get("head") else "N" if a.get("status", 200) != 200 else "E" if not any(a["pieces"])
+                        else ("L" if a["cl"] is not None else "S") for a in case["apps"])
+        return "n%d:%s%s" % (case["n"], kinds if len(kinds) <= 3 else kinds[:3] + "+", ":split" if case.get("quota") else "")
 
     def shrink_candidates(self, case):
         n = case["n"]
@@ -315,9 +376,20 @@ class CHECK(core.Check):
                     c["apps"][i]["cl"] = min(c["apps"][i]["cl"], sum(len(hb(p)) for p in c["apps"][i]["pieces"]))
                 yield c
         s = case["schedule"]
+        if case.get("quota"):
+            c = json.loads(json.dumps(case))
+            del c["quota"]
+            yield c
+            for cutv in (1, 7, 30):
+                c = json.loads(json.dumps(case))
+                c["quota"] = [cutv if x >= 0 else x for x in case["quota"]]
+                if c["quota"] != case["quota"]:
+                    yield c
         if not re.fullmatch(r"(cs)+", s):
             c = json.loads(json.dumps(case))
             c["schedule"] = "cs" * (len(s) // 2 + 1)
+            if c.get("quota"):
+                c["quota"] = (c["quota"] + [-1] * len(c["schedule"]))[:len(c["schedule"])]
             yield c
 
     def extra_evidence(self):
